@@ -49,6 +49,13 @@ def run(prog: Program, rep: Report, tier: str) -> None:
                     bad.append(f"{norm(par)} at line {u.lineno} is not guarded by len({acc}) == 1")
         rep.ob('C10-D1 all-components-joined', f.fq(), f"uses of {acc} after the loop", f.loc(loop), bool(uses) and not bad,
                f"{len(uses)} use(s) after the loop; " + ('; '.join(bad) if bad else 'a single element is taken only when there is exactly one component, otherwise the whole list becomes the children of the root'))
+    # what is decided for one connected component is decided from that component: nothing the per-component loop of acb binds is
+    # carried over into the next iteration (a width found for one component says nothing about where to start the next search)
+    from ..rules.loopstate import check_iteration_local
+    n_loc = 0
+    for loop, acc in loops:
+        n_loc += check_iteration_local(rep, 'C10-D1 component-local state', f, loop)
+    rep.analysed['acb_component_local_names'] = n_loc
     check_bags_linked(prog, rep)
     # D2
     td = prog.func(FZ, 'tree_decomposition')
